@@ -25,7 +25,7 @@ class Ctx(object):
         self.work = os.path.join(VERIF, "out", "work", "%s_%d" % (prop, os.getpid()))
         shutil.rmtree(self.work, ignore_errors=True)
         os.makedirs(self.work)
-        self.replay_dir = os.path.join(VERIF, "out", "replay")
+        self.replay_dir = os.environ.get("VERIF_REPLAY_DIR") or os.path.join(VERIF, "out", "replay")
         os.makedirs(self.replay_dir, exist_ok=True)
         self.states = 0
         self.transitions = 0
@@ -282,8 +282,9 @@ class Ctx(object):
             "coverage": cov, "assumptions": self.assumptions, "wall_s": round(wall, 2),
             "violations": len(self.violations),
         }
-        os.makedirs(os.path.join(VERIF, "evidence"), exist_ok=True)
-        with open(os.path.join(VERIF, "evidence", "%s.json" % self.prop), "w") as f:
+        evdir = os.environ.get("VERIF_EVIDENCE_DIR") or os.path.join(VERIF, "evidence")      # (overridden only by tools/reseed_par.sh)
+        os.makedirs(evdir, exist_ok=True)
+        with open(os.path.join(evdir, "%s.json" % self.prop), "w") as f:
             json.dump(ev, f, indent=1, default=str)
         shutil.rmtree(self.work, ignore_errors=True)
         print("%s %s: states=%d transitions=%d traces=%d replayed=%d cases=%d distinct=%d known=%d violations=%d wall=%.1fs"
